@@ -52,6 +52,16 @@ the hand-written model was written against) so that the Coq development still bu
      `order`, and `self.includepath`;  gen_config_action includepath i d o adds := mkA i d includepath o adds.
      Everything that only feeds the unmodelled keys (callable args kw info introspectables, **extra) is ignored;
      `assert hash(discriminator)` is a precondition of the harness (include mode avoids 0 and '').
+
+=== ENTRY DOORS (model: coq/Model/C04_entry.v; theorems: Proofs/C04_entry.v) ==================================
+  ActionState.action, expand_action_tuple   straight-line DICT BUILDERS (see _dict_builder): the dict that is appended to
+                                          self.actions / returned must give the keys discriminator, includepath, order
+                                          the same-named parameters; positions, arity and defaults of those parameters
+                                          are read from the signature (Python binds a tuple's positions left to right;
+                                          too many positions or a missing required one = TypeError = None)
+  normalize_actions                       acc = []; for v in <param>: [v = expand_action_tuple(*v) unless
+                                          isinstance(v, dict)]; acc.append(v); return acc  ->  a generated fix
+  ConflictResolverState.__init__          self.<attr> = {} | [] | None | <int>  for the four attributes  ->  gen_cstate0
 """
 import ast
 import json
@@ -61,7 +71,11 @@ HERE = os.path.dirname(os.path.abspath(__file__))
 
 # every source function whose control flow is regenerated on every run (tools/coverage_map.py reads this)
 TRANSLATED = ['pyramid/config/actions.py:ActionState.execute_actions',
-              'pyramid/config/actions.py:ActionConfiguratorMixin.action']
+              'pyramid/config/actions.py:ActionConfiguratorMixin.action',
+              'pyramid/config/actions.py:ActionState.action',
+              'pyramid/config/actions.py:expand_action_tuple',
+              'pyramid/config/actions.py:normalize_actions',
+              'pyramid/config/actions.py:ConflictResolverState.__init__']
 
 
 class Problem(Exception):
@@ -409,10 +423,242 @@ def translate_config_action(fn):
             '  mkA i %s %s %s adds.\n' % tuple(args))
 
 
+# ------------------------------------------------------------------ the entry doors (Model/C04_entry.v)
+MODELLED = ('discriminator', 'includepath', 'order')
+
+
+def _default_text(key, node):
+    """the default of a modelled parameter as Gallina"""
+    if key == 'order':
+        if isinstance(node, ast.Constant) and node.value is None:
+            return 'None'
+        if isinstance(node, ast.Constant) and type(node.value) is int:
+            return '(Some (%d)%%Z)' % node.value
+        if isinstance(node, ast.UnaryOp) and isinstance(node.op, ast.USub) and isinstance(node.operand, ast.Constant) \
+                and type(node.operand.value) is int:
+            return '(Some (-%d)%%Z)' % node.operand.value
+    if key == 'includepath' and isinstance(node, ast.Tuple) and not node.elts:
+        return '[]'
+    raise Problem('default of %s outside the table: %s' % (key, u(node)))
+
+
+def _signature(fn, skip_self):
+    """-> (positional parameter names, {name: default node})"""
+    if fn.args.posonlyargs or fn.args.vararg or fn.args.kwonlyargs:
+        raise Problem('%s: signature outside the subset' % fn.name)
+    names = [a.arg for a in fn.args.args]
+    dfl = dict(zip(names[len(names) - len(fn.args.defaults):], fn.args.defaults))
+    if skip_self:
+        if not names or names[0] != 'self':
+            raise Problem('%s: first parameter is not self' % fn.name)
+        names = names[1:]
+    return names, dfl
+
+
+def _dict_builder(fn, params, kwarg):
+    """walks a straight-line body that builds ONE dict from the parameters.
+    Statements: `if P is None: P = <empty literal>` for an unmodelled parameter P; `X = <name>` (renaming; X = the
+    **kwarg name starts a dict holding only unmodelled keys); `X.update(dict(k=v, ..))`; `X = dict(k=v, ..)`;
+    and exactly one SINK (`self.actions.append(X)` or `return X` / `return dict(..)`), which must come last.
+    -> ({modelled key: parameter name}, sink kind)"""
+    subst = {p: p for p in params}
+    dicts = {}
+    if kwarg:
+        dicts[kwarg] = {}
+
+    def name_of(n):
+        if isinstance(n, ast.Name) and n.id in subst:
+            return subst[n.id]
+        raise Problem('%s: value outside the table: %s' % (fn.name, u(n)))
+
+    def dict_call(c):
+        if not (isinstance(c, ast.Call) and u(c.func) == 'dict' and not c.args and all(k.arg for k in c.keywords)):
+            raise Problem('%s: not a dict(k=v, ..) literal: %s' % (fn.name, u(c)[:60]))
+        out = {}
+        for k in c.keywords:
+            out[k.arg] = name_of(k.value) if k.arg in MODELLED else None
+        return out
+    body = strip_doc(list(fn.body))
+    sink = None
+    for idx, s in enumerate(body):
+        if sink is not None:
+            raise Problem('%s: statement after the sink: %s' % (fn.name, u(s)[:60]))
+        if isinstance(s, ast.If) and not s.orelse and isinstance(s.test, ast.Compare) and len(s.test.ops) == 1 \
+                and isinstance(s.test.ops[0], ast.Is) and u(s.test.comparators[0]) == 'None' \
+                and isinstance(s.test.left, ast.Name) and s.test.left.id in params and s.test.left.id not in MODELLED \
+                and len(s.body) == 1 and isinstance(s.body[0], ast.Assign) and u(s.body[0].targets[0]) == s.test.left.id \
+                and u(s.body[0].value) in ('{}', '()', '[]', 'dict()'):
+            continue
+        if isinstance(s, ast.Assign) and len(s.targets) == 1 and isinstance(s.targets[0], ast.Name):
+            t = s.targets[0].id
+            if t in params and t in MODELLED:
+                raise Problem('%s: a modelled parameter is rebound: %s' % (fn.name, u(s)))
+            if isinstance(s.value, ast.Name) and s.value.id in dicts:
+                dicts[t] = dicts[s.value.id]
+                continue
+            if isinstance(s.value, ast.Name) and s.value.id in subst:
+                subst[t] = subst[s.value.id]
+                continue
+            if isinstance(s.value, ast.Call) and u(s.value.func) == 'dict':
+                dicts[t] = dict_call(s.value)
+                continue
+            if isinstance(s.value, ast.Dict) and not s.value.keys:
+                dicts[t] = {}
+                continue
+        if isinstance(s, ast.Expr) and isinstance(s.value, ast.Call) and isinstance(s.value.func, ast.Attribute):
+            f, c = s.value.func, s.value
+            if f.attr == 'update' and isinstance(f.value, ast.Name) and f.value.id in dicts and len(c.args) == 1 and not c.keywords:
+                dicts[f.value.id].update(dict_call(c.args[0]))
+                continue
+            if f.attr == 'append' and u(f.value) == 'self.actions' and len(c.args) == 1 and not c.keywords \
+                    and isinstance(c.args[0], ast.Name) and c.args[0].id in dicts:
+                sink = ('append', dicts[c.args[0].id])
+                continue
+        if isinstance(s, ast.Return) and s.value is not None:
+            if isinstance(s.value, ast.Name) and s.value.id in dicts:
+                sink = ('return', dicts[s.value.id])
+                continue
+            if isinstance(s.value, ast.Call):
+                sink = ('return', dict_call(s.value))
+                continue
+        raise Problem('%s: statement outside the subset: %s' % (fn.name, u(s)[:80]))
+    if sink is None:
+        raise Problem('%s: no sink (self.actions.append(..) / return of the dict)' % fn.name)
+    kind, d = sink
+    for k in MODELLED:
+        if d.get(k) is None:
+            raise Problem('%s: key %s missing from the dict' % (fn.name, k))
+        if d[k] != k:
+            raise Problem('%s: key %s receives the parameter %s' % (fn.name, k, d[k]))
+    for k in ('callable', 'args', 'kw', 'info'):
+        if k not in d:
+            raise Problem('%s: key %s missing from the dict' % (fn.name, k))
+    return d, kind
+
+
+def translate_state_action(fn):
+    params, dfl = _signature(fn, True)
+    kwarg = fn.args.kwarg.arg if fn.args.kwarg else None
+    for k in MODELLED:
+        if k not in params:
+            raise Problem('ActionState.action: parameter %s missing' % k)
+    d, kind = _dict_builder(fn, params, kwarg)
+    if kind != 'append':
+        raise Problem('ActionState.action: the dict is not appended to self.actions')
+    if 'discriminator' in dfl:
+        raise Problem('ActionState.action: discriminator has a default')
+    return ('Definition gen_state_action (self_actions : list action) (i : N) (discriminator : disc) (order : option Z) '
+            '(includepath : path) (adds : list action) : list action :=\n'
+            '  self_actions ++ [mkA i %s %s %s adds].\n'
+            'Definition gen_state_action_default_order : option Z := %s.\n'
+            'Definition gen_state_action_default_includepath : path := %s.\n'
+            % (d['discriminator'], d['includepath'], d['order'], _default_text('order', dfl['order']) if 'order' in dfl else 'None',
+               _default_text('includepath', dfl['includepath']) if 'includepath' in dfl else '[]'))
+
+
+def translate_expand(fn):
+    params, dfl = _signature(fn, False)
+    if fn.args.kwarg:
+        raise Problem('expand_action_tuple takes **kw')
+    for k in MODELLED:
+        if k not in params:
+            raise Problem('expand_action_tuple: parameter %s missing' % k)
+    d, kind = _dict_builder(fn, params, None)
+    if kind != 'return':
+        raise Problem('expand_action_tuple: the dict is not returned')
+    if 'discriminator' in dfl:
+        raise Problem('expand_action_tuple: discriminator has a default')
+    if 'order' not in dfl or 'includepath' not in dfl:
+        raise Problem('expand_action_tuple: order / includepath lost their default')
+    return ('Definition gen_expand_action_tuple (i : N) (adds : list action) (t : list tfield) : option action :=\n'
+            '  match as_disc (nth_error t %d), as_path %s (nth_error t %d), as_ord %s (nth_error t %d) with\n'
+            '  | Some discriminator, Some includepath, Some order =>\n'
+            '      if Nat.leb (length t) %d then Some (mkA i %s %s %s adds) else None\n'
+            '  | _, _, _ => None\n  end.\n'
+            % (params.index('discriminator'), _default_text('includepath', dfl['includepath']), params.index('includepath'),
+               _default_text('order', dfl['order']), params.index('order'), len(params),
+               d['discriminator'], d['includepath'], d['order']))
+
+
+def translate_normalize(fn):
+    """result = []; for v in <param>: [v = expand_action_tuple(*v) unless v is a dict]; result.append(v); return result"""
+    params, _ = _signature(fn, False)
+    if len(params) != 1:
+        raise Problem('normalize_actions: one parameter expected')
+    body = strip_doc(list(fn.body))
+    if len(body) != 3:
+        raise Problem('normalize_actions: body outside the subset')
+    init, loop, ret = body
+    if not (isinstance(init, ast.Assign) and len(init.targets) == 1 and isinstance(init.targets[0], ast.Name)
+            and u(init.value) in ('[]', 'list()')):
+        raise Problem('normalize_actions: no accumulator')
+    acc = init.targets[0].id
+    if not (isinstance(ret, ast.Return) and u(ret.value) == acc):
+        raise Problem('normalize_actions: the accumulator is not returned')
+    if not (isinstance(loop, ast.For) and not loop.orelse and isinstance(loop.target, ast.Name) and u(loop.iter) == params[0]):
+        raise Problem('normalize_actions: no loop over the parameter')
+    v = loop.target.id
+    lb = list(loop.body)
+    if len(lb) != 2 or u(lb[1]) != '%s.append(%s)' % (acc, v):
+        raise Problem('normalize_actions: loop body outside the subset')
+    cond = lb[0]
+    if not isinstance(cond, ast.If):
+        raise Problem('normalize_actions: no isinstance test')
+    t, neg = cond.test, False
+    if isinstance(t, ast.UnaryOp) and isinstance(t.op, ast.Not):
+        t, neg = t.operand, True
+    if u(t) != 'isinstance(%s, dict)' % v:
+        raise Problem('normalize_actions: test outside the table: %s' % u(cond.test))
+    tup_branch, dict_branch = (cond.body, cond.orelse) if neg else (cond.orelse, cond.body)
+    if [u(x) for x in tup_branch] != ['%s = expand_action_tuple(*%s)' % (v, v)]:
+        raise Problem('normalize_actions: tuple branch outside the table')
+    if not all(isinstance(x, ast.Pass) for x in dict_branch):
+        raise Problem('normalize_actions: dict branch does something')
+    return ('Definition gen_normalize_actions (actions : list raw) : option (list action) :=\n'
+            '  (fix loop (vs : list raw) (result : list action) {struct vs} : option (list action) :=\n'
+            '     match vs with\n     | [] => Some result\n'
+            '     | RDict v :: vs\' => loop vs\' (result ++ [v])\n'
+            '     | RTuple i adds t :: vs\' =>\n'
+            '         match gen_expand_action_tuple i adds t with Some v => loop vs\' (result ++ [v]) | None => None end\n'
+            '     end) actions [].\n')
+
+
+def translate_crs_init(fn):
+    """ConflictResolverState.__init__: four attribute initialisations, any order"""
+    params, _ = _signature(fn, True)
+    if params or fn.args.kwarg:
+        raise Problem('ConflictResolverState.__init__ takes parameters')
+    vals = {}
+    for s in strip_doc(list(fn.body)):
+        if not (isinstance(s, ast.Assign) and len(s.targets) == 1 and isinstance(s.targets[0], ast.Attribute)
+                and u(s.targets[0].value) == 'self'):
+            raise Problem('ConflictResolverState.__init__: statement outside the subset: %s' % u(s)[:60])
+        a, v = s.targets[0].attr, u(s.value)
+        if a in vals:
+            raise Problem('ConflictResolverState.__init__: %s assigned twice' % a)
+        if a == 'resolved_ainfos' and v in ('{}', 'dict()'):
+            vals[a] = '[]'
+        elif a == 'remaining_actions' and v in ('[]', 'list()'):
+            vals[a] = '[]'
+        elif a == 'min_order' and v == 'None':
+            vals[a] = 'None'
+        elif a == 'min_order' and isinstance(s.value, ast.Constant) and type(s.value.value) is int:
+            vals[a] = '(Some (%d)%%Z)' % s.value.value
+        elif a == 'start' and isinstance(s.value, ast.Constant) and type(s.value.value) is int and s.value.value >= 0:
+            vals[a] = '%d%%N' % s.value.value
+        else:
+            raise Problem('ConflictResolverState.__init__: %s = %s outside the table' % (a, v))
+    for a in ('resolved_ainfos', 'remaining_actions', 'min_order', 'start'):
+        if a not in vals:
+            raise Problem('ConflictResolverState.__init__: %s not initialised' % a)
+    return ('Definition gen_cstate0 : cstate :=\n  {| resolved := %s; remaining := %s; min_order := %s; start := %s |}.\n'
+            % (vals['resolved_ainfos'], vals['remaining_actions'], vals['min_order'], vals['start']))
+
+
 HEADER = '''(* GENERATED by harness/c04/translate.py from src/pyramid/config/actions.py on every run -- do not edit. *)
 From Coq Require Import List NArith ZArith Bool.
 Import ListNotations.
-Require Import Verif.Lib.Wire Verif.Model.C04.
+Require Import Verif.Lib.Wire Verif.Model.C04 Verif.Model.C04_entry.
 
 '''
 
@@ -426,17 +672,28 @@ def translate_tree(src_root):
         with open(os.path.join(src_root, 'pyramid/config/actions.py')) as f:
             tree = ast.parse(f.read())
         cls = {n.name: n for n in tree.body if isinstance(n, ast.ClassDef)}
+        top = {n.name: n for n in tree.body if isinstance(n, ast.FunctionDef)}
         fns = {}
-        for cn, mn in (('ActionState', 'execute_actions'), ('ActionConfiguratorMixin', 'action')):
+        for cn, mn, key in (('ActionState', 'execute_actions', 'execute_actions'), ('ActionConfiguratorMixin', 'action', 'action'),
+                            ('ActionState', 'action', 'state_action'), ('ConflictResolverState', '__init__', 'crs_init')):
             m = [x for x in cls[cn].body if isinstance(x, ast.FunctionDef) and x.name == mn]
             if len(m) != 1:
                 raise Problem('%s.%s not found' % (cn, mn))
-            fns[mn] = m[0]
+            fns[key] = m[0]
+        for fnname in ('expand_action_tuple', 'normalize_actions'):
+            if fnname not in top:
+                raise Problem('%s not found' % fnname)
+            fns[fnname] = top[fnname]
     except Exception as e:
         problems.append('translator: cannot read the source: %r' % (e,))
         fns = {}
-    for key, fn in (('gen_execute_actions', lambda: ExecTranslator().translate(fns['execute_actions'])),
-                    ('gen_config_action', lambda: translate_config_action(fns['action']))):
+    order = (('gen_execute_actions', lambda: ExecTranslator().translate(fns['execute_actions'])),
+             ('gen_config_action', lambda: translate_config_action(fns['action'])),
+             ('gen_state_action', lambda: translate_state_action(fns['state_action'])),
+             ('gen_expand_action_tuple', lambda: translate_expand(fns['expand_action_tuple'])),
+             ('gen_normalize_actions', lambda: translate_normalize(fns['normalize_actions'])),
+             ('gen_cstate0', lambda: translate_crs_init(fns['crs_init'])))
+    for key, fn in order:
         try:
             parts[key] = fn()
             summary['translated:' + key] = 'ok'
@@ -448,4 +705,4 @@ def translate_tree(src_root):
             problems.append('translator (%s) failed: %r' % (key, e))
             parts[key] = fallback[key]
             summary['translated:' + key] = 'FALLBACK'
-    return HEADER + parts['gen_execute_actions'] + '\n' + parts['gen_config_action'], problems, summary
+    return HEADER + '\n'.join(parts[k] for k, _ in order), problems, summary
